@@ -46,7 +46,7 @@ pub struct C15;
 fn kind_strategy() -> impl Strategy<Value = InjKind> {
     prop_oneof![
         4 => (0u8..6).prop_map(|back| InjKind::Replay { back }),
-        3 => (any::<u16>(), prop_oneof![Just(1u32), Just(3u32), Just(u32::MAX), any::<u32>()]).prop_map(|(back, bitfield)| InjKind::WrongNonce { back, bitfield: bitfield | 1 }),
+        3 => (any::<u16>(), prop_oneof![Just(1u32), Just(3u32), Just(2u32), Just(6u32), Just(u32::MAX), Just(u32::MAX - 1), any::<u32>()]).prop_map(|(back, bitfield)| InjKind::WrongNonce { back, bitfield: if bitfield == 0 { 2 } else { bitfield } }),
         1 => (0u32..5000, any::<u32>()).prop_map(|(ahead, bitfield)| InjKind::Unknown { ahead, bitfield: bitfield | 1 }),
         2 => (0u8..8).prop_map(|back| InjKind::Mixed { back }),
         1 => (1u32..100_000, any::<u32>()).prop_map(|(behind, bitfield)| InjKind::Stale { behind, bitfield: bitfield | 1 }),
@@ -233,7 +233,7 @@ impl Check for C15 {
     }
 
     fn rule(&self) -> String {
-        "case = SimPair scenario + list of injections; the scenario is run twice with identical clock and nonce streams, the second time additionally handing the senders, between ticks, ack frames that must be inert: genuine earlier ack groups replayed (any age), groups over really-sent frames with the nonce inverted, groups ahead of / far behind the frame log, groups mixing sent and never-sent ids, and network duplicates of genuine ack frames arriving right behind the original (same step interval) or up to 2 s later; every forged frame carries the window bases of the latest genuine ack that endpoint handled, so it cannot move a window. Oracle: both runs emit byte-identical frames at identical virtual times and report identical rtt_s(), allowed rate, is_send_pending(), send_buffer_size() and queue lengths at every snapshot, and deliver identically. Non-trivial = at least one injected group referred to a frame sent within the last virtual second. Distinct = distinct serialised case.".into()
+        "case = SimPair scenario + list of injections; the scenario is run twice with identical clock and nonce streams, the second time additionally handing the senders, between ticks, ack frames that must be inert: genuine earlier ack groups replayed (any age), groups over really-sent frames with the nonce inverted (any bitfield, including ones that do not claim their own base frame), groups ahead of / far behind the frame log, groups mixing sent and never-sent ids, and network duplicates of genuine ack frames arriving right behind the original (same step interval) or up to 2 s later; every forged frame carries the window bases of the latest genuine ack that endpoint handled, so it cannot move a window. Oracle: both runs emit byte-identical frames at identical virtual times and report identical rtt_s(), allowed rate, is_send_pending(), send_buffer_size() and queue lengths at every snapshot, and deliver identically. Non-trivial = at least one injected group referred to a frame sent within the last virtual second. Distinct = distinct serialised case.".into()
     }
 
     fn assumptions(&self) -> Vec<String> {
